@@ -73,6 +73,46 @@ impl Report {
             self.inconclusive.push(why);
         }
     }
+    /// (de)serialisation for reports handed over by worker subprocesses
+    pub fn to_json(&self) -> Value {
+        json!({
+            "evaluations": self.evaluations,
+            "nontrivial": self.nontrivial.iter().collect::<Vec<_>>(),
+            "samples": self.samples,
+            "counters": self.counters,
+            "sets": self.sets,
+            "viol_by_sig": self.viol_by_sig,
+            "violations": self.violations.iter().map(|v| json!({"signature": v.signature, "message": v.message, "replay": v.replay})).collect::<Vec<_>>(),
+            "inconclusive": self.inconclusive,
+        })
+    }
+    pub fn from_json(v: &Value) -> Report {
+        let mut r = Report::new();
+        r.evaluations = v["evaluations"].as_u64().unwrap_or(0);
+        if let Some(a) = v["nontrivial"].as_array() {
+            r.nontrivial = a.iter().filter_map(|x| x.as_u64()).collect();
+        }
+        if let Some(a) = v["samples"].as_array() {
+            r.samples = a.clone();
+        }
+        if let Some(o) = v["counters"].as_object() {
+            r.counters = o.iter().map(|(k, x)| (k.clone(), x.as_u64().unwrap_or(0))).collect();
+        }
+        if let Some(o) = v["sets"].as_object() {
+            r.sets = o.iter().map(|(k, x)| (k.clone(), x.as_array().map(|a| a.iter().filter_map(|y| y.as_str().map(String::from)).collect()).unwrap_or_default())).collect();
+        }
+        if let Some(o) = v["viol_by_sig"].as_object() {
+            r.viol_by_sig = o.iter().map(|(k, x)| (k.clone(), x.as_u64().unwrap_or(0))).collect();
+        }
+        if let Some(a) = v["violations"].as_array() {
+            r.violations = a.iter().map(|x| Violation { signature: x["signature"].as_str().unwrap_or("").to_string(), message: x["message"].as_str().unwrap_or("").to_string(), replay: x["replay"].clone() }).collect();
+        }
+        if let Some(a) = v["inconclusive"].as_array() {
+            r.inconclusive = a.iter().filter_map(|x| x.as_str().map(String::from)).collect();
+        }
+        r
+    }
+
     pub fn merge(&mut self, o: Report) {
         self.evaluations += o.evaluations;
         self.nontrivial.extend(o.nontrivial);
